@@ -370,6 +370,21 @@ def run(chk: Check):
             chk.fail("restore: " + f, {"case": {"kind": "script", "cfg": cfg, "script": script}})
         for k in known[:1]:
             chk.fail("restore: " + k, {"case": {"kind": "script", "cfg": cfg, "script": script}}, signature=SIG_STALE)
+    # in every run: a line-up whose samplers carry state of their own (the swarm: positions, velocities, personal bests, cursor), restored after each of them has
+    # proposed and been fed back at least once - the restored samplers hold the state they were saved with
+    for auto in (True, False):
+        cfg = gen_cfg(rng, k_samplers=2)
+        cfg["lineup"] = [("ParticleSwarmSampler", rng.randint(2, 4), None), (rng.choice(["HaltonSampler", "RSequenceSampler"]), 2, None)]
+        cfg["dims"] = min(cfg["dims"], 4)
+        cfg.pop("explicit_only", None)
+        if not auto:
+            cfg["explicit_only"] = True
+        script = [("C", 3), ("K",), ("R",), ("C", 2), ("K",), ("R",), ("C", 1)]
+        fails, known = op_script(chk, rng, cfg, script)
+        chk.case([cfg, script], True, {"lineup": [x[0] for x in cfg["lineup"]], "loss": cfg["loss"], "script": script})
+        chk.count("script:stateful_samplers_restored_after_feedback")
+        for f in fails[:2]:
+            chk.fail("restore: " + f, {"case": {"kind": "script", "cfg": cfg, "script": script}})
     # RL scheduler + saving folder
     cfg = gen_cfg(rng, k_samplers=3); cfg["sched"] = "rl"; cfg["folder"] = True
     try:
